@@ -53,7 +53,7 @@ def has_fault(res):
     return res.sig is not None or any(x in t for x in FAULT_TEXTS)
 
 
-_TOOL_LINE = re.compile(r'^(#\d+ \((Warning|Error|Fatal Error|Remark|Note)\)|\[L\d+ C\d+\]|"[^"]*", line \d+:|\.*\^+[.^]*$|#\d+ 0x[0-9a-f]+ in |\.\.\.$|Unhandled Exception)')
+_TOOL_LINE = re.compile(r'^(#\d+ \((Warning|Error|Fatal Error|Remark|Note)\)|\[L\d+ C\d+\]|"[^"]*", line \d+:|\.*\^+[.^]*$|#\d+ (0x)?[0-9a-f]+ in <|\.\.\.$|Unhandled Exception)')
 
 
 def strip_tool_text(text):
